@@ -28,12 +28,24 @@ def Ev.ofSExp? : SExp → Option Ev
   | .list [w, k, a, b] => do pure { w := ← w.nat?, kind := ← k.nat?, a := ← a.nat?, b := ← b.nat? }
   | _ => none
 
+/-- which worker loop produced the trace -/
+inductive Mode | bfs | dfs | ondemand
+deriving DecidableEq, Repr
+
 structure TV where
   x : FState Nat Nat
   /-- worker ↦ the reason of its `TR_STOP` entry -/
   reason : List (Nat × Nat)
   /-- sizes of the batches published by the `split_and_push` in progress -/
   pieces : List Nat
+  /-- on_demand.rs only: worker ↦ the tokens of the jobs its current block has drained from the front of its deque into
+      `local_pending` and not yet taken (the block pops them from the back of that vector) -/
+  loc : List (Nat × List Tok) := []
+  /-- on_demand.rs only: the workers that have run their first block -/
+  started : List Nat := []
+
+def TV.localOf (tv : TV) (w : Nat) : List Tok := (tv.loc.lookup w).getD []
+def TV.setLocal (tv : TV) (w : Nat) (l : List Tok) : TV := { tv with loc := (w, l) :: tv.loc.filter (·.1 != w) }
 
 abbrev R := Except String
 
@@ -128,6 +140,7 @@ def oneDrop (k : Nat) (tv : TV) (e : Ev) : R TV := do
     let f : FStep := match tv.reason.lookup w with
       | some 1 => .stop w .finish
       | some 2 => .stop w .target
+      | some 5 => .stop w .panic
       | some _ => .exit w
       | none => .stop w .panic
     let x ← stepE P x f
@@ -147,6 +160,52 @@ def oneTake (tv : TV) (e : Ev) : R TV := do
     let x ← stepE P x (.take w p)
     let x ← advance P x w (fuelOf P)
     pure { tv with x }
+
+/-- on_demand.rs: a block starts by draining the first `min(1500, len)` jobs of the deque -/
+def oneBlock (tv : TV) (e : Ev) : R TV := do
+  let w := e.w
+  let x ← advance P tv.x w (fuelOf P)
+  if w ∈ x.aw then throw "a block starts while the model still works on the previous job"
+  if !(tv.localOf w).isEmpty then throw s!"a block starts although {(tv.localOf w).length} drained jobs of the previous block are unaccounted for"
+  let dq := locOf x.m w
+  -- the block that follows `RunToCompletion` runs on the still EMPTY `targetted_pending` (the jobs obtained from the
+  -- market are in `pending`); every later block starts with `targetted_pending.append(&mut pending)`: the whole deque
+  let want := if w ∈ tv.started then min 1500 dq.length else 0
+  if e.a != want then throw s!"block drains {e.a} jobs, the model expects {want} (deque {dq.length})"
+  pure ({ tv with x, started := w :: tv.started }.setLocal w (dq.take e.a))
+
+/-- the jobs of `ts` are dropped unevaluated -/
+def discardAll (x : FState Nat Nat) (w : Nat) : List Tok → R (FState Nat Nat)
+  | [] => pure x
+  | t :: ts =>
+    match (locOf x.m w).idxOf? t with
+    | none => throw s!"drained job (token {t}) is not in the model's deque of worker {w}"
+    | some p => do let x' ← stepE P x (.discard w p); discardAll x' w ts
+
+/-- on_demand.rs: the block returns because nothing is awaited any more; the drained jobs not yet taken die with it -/
+def oneBlockEnd (tv : TV) (e : Ev) : R TV := do
+  let w := e.w
+  let x ← advance P tv.x w (fuelOf P)
+  if w ∈ x.aw then throw "the block returned early, but in the model the worker's job still awaits discoveries"
+  if e.a != (tv.localOf w).length then throw s!"block end: {e.a} drained jobs dropped, the model has {(tv.localOf w).length} left"
+  let x ← discardAll P x w (tv.localOf w)
+  pure ({ tv with x }.setLocal w [])
+
+/-- on_demand.rs: `local_pending.pop()` — the LAST of the drained jobs that are left -/
+def oneTakeLocal (tv : TV) (e : Ev) : R TV := do
+  let w := e.w
+  let x ← advance P tv.x w (fuelOf P)
+  if w ∈ x.aw then throw "take while the model still works on the previous job"
+  match (tv.localOf w).getLast? with
+  | none => throw s!"take: the block of worker {w} has no drained job left in the model"
+  | some t =>
+    match (locOf x.m w).idxOf? t, jobOfTok x t with
+    | some p, some j =>
+      if !(j.st == e.a && j.depth == e.b) then throw s!"take: the model's next drained job is state {j.st} depth {j.depth}, the implementation took state {e.a} depth {e.b}"
+      let x ← stepE P x (.take w p)
+      let x ← advance P x w (fuelOf P)
+      pure ({ tv with x }.setLocal w (tv.localOf w).dropLast)
+    | _, _ => throw s!"take: drained job (token {t}) is not in the model's deque of worker {w}"
 
 def oneProp (tv : TV) (e : Ev) : R TV := do
   let x := tv.x
@@ -193,7 +252,7 @@ def oneTimeout (tv : TV) : R TV := do
   let x ← stepE P tv.x .timeout
   pure { tv with x }
 
-def one (k : Nat) (dfs : Bool) (tv : TV) (e : Ev) : R TV :=
+def one (k : Nat) (mode : Mode) (tv : TV) (e : Ev) : R TV :=
   match e.kind with
   | 1 | 2 | 3 => onePop P k tv e
   | 5 => throw "unexpected push"
@@ -202,18 +261,20 @@ def one (k : Nat) (dfs : Bool) (tv : TV) (e : Ev) : R TV :=
   | 9 => oneSplitClosed P tv e
   | 10 => oneDrop P k tv e
   | 11 => oneTimeout P tv
-  | 20 => oneTake P tv e
+  | 20 => if mode == .ondemand then oneTakeLocal P tv e else oneTake P tv e
   | 21 => oneProp P tv e
-  | 22 => oneExpand P dfs tv e
+  | 22 => oneExpand P (mode == .dfs) tv e
   | 23 => oneRecord P tv e
   | 24 => pure { tv with reason := (e.w, e.a) :: tv.reason.filter (·.1 != e.w) }
+  | 25 => if mode == .ondemand then oneBlock P tv e else throw "block entry in a bfs/dfs trace"
+  | 26 => if mode == .ondemand then oneBlockEnd P tv e else throw "block entry in a bfs/dfs trace"
   | _ => throw s!"unknown entry kind {e.kind}"
 
-def replay (k : Nat) (dfs : Bool) : TV → Nat → List Ev → R TV
+def replay (k : Nat) (mode : Mode) : TV → Nat → List Ev → R TV
   | tv, _, [] => pure tv
   | tv, i, e :: es =>
-    match one P k dfs tv e with
-    | .ok tv' => replay k dfs tv' (i + 1) es
+    match one P k mode tv e with
+    | .ok tv' => replay k mode tv' (i + 1) es
     | .error msg => throw s!"entry {i} (worker {e.w} kind {e.kind} {e.a} {e.b}): {msg}"
 
 def handle : Drv.Handler
@@ -225,7 +286,7 @@ def handle : Drv.Handler
     let evs ← evs.mapM Ev.ofSExp?
     let c : Case := { g, props := ps, cfg, finish := fin }
     let P := c.params
-    let dfs := strat == "dfs"
+    let mode : Mode := if strat == "dfs" then .dfs else if strat == "bfs" then .bfs else .ondemand
     -- the first entry is the owner's push of the initial jobs
     match evs with
     | [] => pure "mismatch empty trace"
@@ -234,13 +295,16 @@ def handle : Drv.Handler
       if !(e0.kind == 5 && e0.b == 0 && e0.a == x0.ft.length) then
         pure s!"mismatch entry 0: expected the push of {x0.ft.length} initial jobs"
       else
-        match replay P k dfs { x := x0, reason := [], pieces := [] } 1 rest with
+        match replay P k mode { x := x0, reason := [], pieces := [] } 1 rest with
         | .error msg => pure s!"mismatch {msg}"
         | .ok tv =>
           let x := tv.x
-          let names := (x.c.disc.map (·.1)).mergeSort (· ≤ ·)
+          -- every discovery with its path: what `discoveries()` rebuilds (bfs / on-demand: from the parent map,
+          -- `C03_parents_discovery`) is the path the machine recorded
+          let disc := x.c.disc.mergeSort (fun a b => a.1 ≤ b.1)
+          let discS := "(" ++ " ".intercalate (disc.map fun (i, p) => s!"({i} {natsStr p})") ++ ")"
           let exited := x.m.pcs.all (· == Pc.exited)
-          pure s!"ok (uniq {x.c.gen.length}) (count {x.c.stateCount}) (disc {natsStr names}) (pending {x.c.frontier.length}) (busy {x.c.active.length}) (exited {Drv.bstr exited})"
+          pure s!"ok (uniq {x.c.gen.length}) (count {x.c.stateCount}) (disc {discS}) (pending {x.c.frontier.length}) (busy {x.c.active.length}) (exited {Drv.bstr exited})"
   | _, _ => none
 
 end SR.Drv.Full
